@@ -377,9 +377,96 @@ func (r *rw) block(b *ast.BlockStmt) {
 func (r *rw) stmts(in []ast.Stmt) []ast.Stmt {
 	var out []ast.Stmt
 	for _, s := range in {
+		if fw := r.fieldWrite(s); fw != nil {
+			out = append(out, fw...)
+			continue
+		}
 		out = append(out, r.stmt(s)...)
 	}
 	return out
+}
+
+// fieldChain reports whether e is x.f, x.f.g, ... rooted in an identifier (no calls, no indexing:
+// evaluating it twice has no effect).
+func fieldChain(e ast.Expr) bool {
+	sel, ok := e.(*ast.SelectorExpr)
+	if !ok {
+		return false
+	}
+	for {
+		switch x := sel.X.(type) {
+		case *ast.Ident:
+			return true
+		case *ast.SelectorExpr:
+			sel = x
+		default:
+			return false
+		}
+	}
+}
+
+// fieldWrite: a statement that stores into a struct field gets vsync.SharedWrite() in front of the
+// store (a scheduling point only while the thread holds a read lock; see the shim).  x.f++ and
+// x.f op= y are split into load, point, store so that a lost update under a shared lock is
+// expressible; plain assignments get the point in front of the statement.
+func (r *rw) fieldWrite(s ast.Stmt) []ast.Stmt {
+	sw := &ast.ExprStmt{X: call(vs("SharedWrite"))}
+	switch x := s.(type) {
+	case *ast.IncDecStmt:
+		if !fieldChain(x.X) {
+			return nil
+		}
+		stats["fieldwrite"]++
+		r.needVS = true
+		t := r.id("fw")
+		op := token.ADD
+		if x.Tok == token.DEC {
+			op = token.SUB
+		}
+		return []ast.Stmt{&ast.BlockStmt{List: []ast.Stmt{
+			&ast.AssignStmt{Lhs: []ast.Expr{t}, Tok: token.DEFINE, Rhs: []ast.Expr{x.X}},
+			sw,
+			&ast.AssignStmt{Lhs: []ast.Expr{x.X}, Tok: token.ASSIGN, Rhs: []ast.Expr{&ast.BinaryExpr{X: t, Op: op, Y: &ast.BasicLit{Kind: token.INT, Value: "1"}}}},
+		}}}
+	case *ast.AssignStmt:
+		any := false
+		for _, l := range x.Lhs {
+			if fieldChain(l) {
+				any = true
+			}
+		}
+		if !any || x.Tok == token.DEFINE {
+			return nil
+		}
+		stats["fieldwrite"]++
+		r.needVS = true
+		if len(x.Lhs) == 1 && len(x.Rhs) == 1 && x.Tok != token.ASSIGN && len(recvs(x)) == 0 {
+			var op token.Token
+			switch x.Tok {
+			case token.ADD_ASSIGN:
+				op = token.ADD
+			case token.SUB_ASSIGN:
+				op = token.SUB
+			case token.OR_ASSIGN:
+				op = token.OR
+			case token.AND_ASSIGN:
+				op = token.AND
+			case token.XOR_ASSIGN:
+				op = token.XOR
+			}
+			if op != 0 {
+				r.exprs(x)
+				t := r.id("fw")
+				return []ast.Stmt{&ast.BlockStmt{List: []ast.Stmt{
+					&ast.AssignStmt{Lhs: []ast.Expr{t}, Tok: token.DEFINE, Rhs: []ast.Expr{x.Lhs[0]}},
+					sw,
+					&ast.AssignStmt{Lhs: []ast.Expr{x.Lhs[0]}, Tok: token.ASSIGN, Rhs: []ast.Expr{&ast.BinaryExpr{X: t, Op: op, Y: &ast.ParenExpr{X: x.Rhs[0]}}}},
+				}}}
+			}
+		}
+		return append([]ast.Stmt{sw}, r.stmt(s)...)
+	}
+	return nil
 }
 
 // recvs returns the channel expressions of receive operations directly in n (not inside
